@@ -170,12 +170,15 @@ def _AC2BO(AC: np.ndarray[tuple[N, N], np.dtype[np.int8]],
         # neutral. Otherwise the first valence combination that can be
         # saturated wins, which depends on the order of the atoms and can
         # return a diradical (e.g. H2N=SH instead of H2N-SH).
+        # lowest valence first: an atom is only made hypervalent when the
+        # molecule cannot be saturated otherwise (a disulfide is S(II)-S(II),
+        # not S(VI) with a quintuple S-S bond; a phosphole keeps P(III))
         neutral_valences = [
-            [
+            sorted(
                 v
                 for v in possible_valences
                 if _get_atomic_charge(a, atomic_valence_electrons[a], v) == 0
-            ]
+            )
             for a, possible_valences in zip(atom_nrs, valences_list_of_lists)
         ]
         if all(neutral_valences):
